@@ -14,6 +14,9 @@ import (
 	"unicode/utf8"
 
 	"github.com/evanw/esbuild/internal/ast"
+	"github.com/evanw/esbuild/internal/bundler"
+	"github.com/evanw/esbuild/internal/fs"
+	"github.com/evanw/esbuild/internal/linker"
 	"github.com/evanw/esbuild/internal/helpers"
 	"github.com/evanw/esbuild/internal/logger"
 	"github.com/evanw/esbuild/internal/sourcemap"
@@ -392,6 +395,20 @@ func runC07(seed uint64, n int, tier string, outDir string) []*Stats {
 		st.Sample(map[string]interface{}{"joined_mappings": string(joined), "chunks": k})
 	}
 	cf.AddCases("join_cases", "Z * list Z * list Z * bytes * Z * bytes", "check_join", joinItems)
+
+	// --- the real joining loop (linker.generateSourceMapForChunk on a synthetic
+	// linker context) on chunks built by the real ChunkBuilder, vs JoinAll.v
+	var jaItems []string
+	for i := 0; i < nj; i++ {
+		it, mapIt := genJoinAllCase(r, st)
+		if it != "" {
+			jaItems = append(jaItems, it)
+		}
+		if mapIt != "" {
+			mapItems = append(mapItems, mapIt)
+		}
+	}
+	cf.AddCases("joinall_cases", "list (bytes * Z * Z * list Z * bool * Z * bool * (Z * Z) * Z * bool) * bytes", "check_joinall", jaItems)
 
 	// --- Finalize with shifts built the way substituteFinalPaths builds them
 	var finItems []string
@@ -1342,4 +1359,122 @@ func glueKnownFindings(st *Stats) {
 		}
 	}
 	st.Histogram["known-finding-no-longer-reproduces:generated-symbol-name-recorded"]++
+}
+
+// ---------------------------------------------------------------------------
+// generateSourceMapForChunk (the n-file joining loop)
+
+var c07MockFS = fs.MockFS(map[string]string{}, fs.MockUnix, "/")
+
+func jresCoq(ch sourcemap.Chunk, off sourcemap.LineColumnOffset, src uint32, null bool) string {
+	es := ch.EndState
+	return fmt.Sprintf("(%s,%s,%d,%s,%s,%d,%s,(%d,%d),%d,%s)", CBytes(ch.Buffer.Data), CZ(fnoOf(ch.Buffer.FirstNameOffset)), len(ch.QuotedNames),
+		stateFields(es), CBool(es.HasOriginalName), ch.FinalGeneratedColumn, CBool(ch.ShouldIgnore), off.Lines, off.Columns, src, CBool(null))
+}
+
+// One case: a sequence of compiled files laid out the way generateChunkJS does
+// (gap text, then the file's text; files whose chunk is empty become null
+// entries), joined by the real generateSourceMapForChunk. The expectation is
+// computed from the generated text alone: every mapping of a file, decoded from
+// the file's own chunk, must reappear at (position of the file's text in the
+// whole output) + (its position inside the file), with the "sources" index of
+// the file (order of first appearance) and the names of the earlier files added.
+func genJoinAllCase(r *Rng, st *Stats) (string, string) {
+	nonASCII := r.Chance(40)
+	k := r.Range(1, 6)
+	nfiles := r.Range(1, 4)
+	files := make([]linker.VerifFile, nfiles)
+	data := make([]bundler.DataForSourceMap, nfiles)
+	for i := range files {
+		files[i] = linker.VerifFile{Namespace: "verif", KeyText: fmt.Sprintf("f%d.js", i), PrettyRel: fmt.Sprintf("f%d.js", i)}
+		data[i] = bundler.DataForSourceMap{QuotedContents: [][]byte{[]byte("\"\"")}}
+	}
+	v := linker.VerifNewLinker(c07MockFS, "/out", "", "KEY", files, nil)
+	var results []linker.VerifSourceMapResult
+	var items []string
+	var full []byte
+	var prevOffset sourcemap.LineColumnOffset
+	sourcesIndex := map[uint32]int{}
+	totalNames := 0
+	var expect []segAbs
+	endOfPrev := 0 // byte offset in full where the previous mapped file's text ended
+	for c := 0; c < k; c++ {
+		gap := []string{"", "\n", "// x\n", "  ", "/* é */ ", "\n\n// 😀\n", ";", "\r\n"}[r.Intn(8)]
+		if !nonASCII {
+			gap = []string{"", "\n", "// x\n", "  ", "\r\n", "\n\n// y\n", ";", ""}[r.Intn(8)]
+		}
+		prevOffset.AdvanceString(gap)
+		full = append(full, gap...)
+		src := uint32(r.Intn(nfiles))
+		if r.Chance(18) {
+			// a file without mappings: only text, and a null entry after a mapped file
+			text := []string{"var a;", "x();\n", "/* no map */", "\n"}[r.Intn(4)]
+			full = append(full, text...)
+			prevOffset.AdvanceString(text)
+			if n := len(results); n > 0 && !results[n-1].IsNullEntry {
+				results = append(results, linker.VerifSourceMapResult{SourceIndex: src, IsNullEntry: true})
+				items = append(items, jresCoq(sourcemap.Chunk{}, sourcemap.LineColumnOffset{}, src, true))
+				l0, c0 := lineColOf(full, endOfPrev)
+				expect = append(expect, segAbs{gl: l0, gc: c0})
+			}
+			continue
+		}
+		bc := buildRandomChunk(r, nonASCII)
+		if bc.chunk.ShouldIgnore || len(bc.chunk.Buffer.Data) == 0 {
+			full = append(full, bc.text...)
+			prevOffset.AdvanceBytes(bc.text)
+			continue
+		}
+		startByte := len(full)
+		full = append(full, bc.text...)
+		results = append(results, linker.VerifSourceMapResult{Chunk: bc.chunk, Offset: prevOffset, SourceIndex: src})
+		items = append(items, jresCoq(bc.chunk, prevOffset, src, false))
+		prevOffset = sourcemap.LineColumnOffset{}
+		endOfPrev = len(full)
+		si, ok := sourcesIndex[src]
+		if !ok {
+			si = len(sourcesIndex)
+			sourcesIndex[src] = si
+		}
+		dec, dok := decodeMappings(bc.chunk.Buffer.Data)
+		if !dok {
+			return "", ""
+		}
+		sl, sc := lineColOf(full, startByte)
+		for _, a := range dec {
+			b := a
+			if a.gl == 0 {
+				b.gc += sc
+			}
+			b.gl += sl
+			b.s += si
+			if a.hasName {
+				b.n += totalNames
+			}
+			expect = append(expect, b)
+		}
+		totalNames += len(bc.chunk.QuotedNames)
+	}
+	if len(results) == 0 {
+		return "", ""
+	}
+	pieces := v.GenerateSourceMapForChunk(results, "/out", data)
+	joined := pieces.Mappings
+	got, gok := decodeMappings(joined)
+	input := map[string]interface{}{"scenario": "joinall", "joined": string(joined), "text": string(full), "results": items}
+	if !gok || !sameAbs(got, expect) {
+		st.Fail("joinall-positions", input, fmt.Sprint(got), fmt.Sprint(expect))
+	}
+	st.Note("joinall", string(joined)+fmt.Sprint(len(results)), len(results) > 1)
+	item := fmt.Sprintf("([%s],%s)", strings.Join(items, ";"), CBytes(joined))
+	var dl []string
+	for _, a := range expect {
+		dl = append(dl, a.coq())
+	}
+	nsrc := len(sourcesIndex)
+	if nsrc == 0 {
+		nsrc = 1
+	}
+	mapItem := fmt.Sprintf("(%s,%d,%d,%s)", CBytes(joined), nsrc, totalNames+1, "["+strings.Join(dl, ";")+"]")
+	return item, mapItem
 }
